@@ -634,6 +634,13 @@ func (w *Proxy) quiescent() {
 	all, maxB := !wait, now+time.Hour
 	if all || now >= maxB {
 		w.finalSet = true
+		// the malformed-input clients hang up now: whatever half-open exchange they left behind
+		// (e.g. an HTTP/2 stream whose body never came) has to be cleaned up before the idle check
+		for _, g := range w.garbage {
+			if g.Conn != nil && !g.Conn.PeerDone() {
+				g.Conn.PeerClose()
+			}
+		}
 		// settle: long enough for every timer of MOSN related to these requests to have fired
 		settle := 70 * time.Second
 		w.S.After(settle, "final", func() { w.final() })
